@@ -243,6 +243,8 @@ def specs(tier):
             {'nblocks': 3, 'bands': [{'closed': True, 'hunks': [[[0, 1]]]}, {'closed': True, 'hunks': [[[1]], [[2]]]}]},
             {'nblocks': 2, 'bands': [{'closed': True, 'hunks': [[[0]]]}, None, {'closed': True, 'hunks': [[[0], [1]]]}]},
             {'nblocks': 2, 'bands': [{'closed': True, 'hunks': [[[0]]]}, {'closed': False, 'hunks': [[[1]]]}]},
+            # an interrupted version (two hunks, no tail) in the middle of the history: its blocks are referenced too
+            {'nblocks': 4, 'bands': [{'closed': True, 'hunks': [[[0]]]}, {'closed': False, 'hunks': [[[1]], [[2]]]}, {'closed': True, 'hunks': [[[0], [3]]]}]},
             {'nblocks': 1, 'bands': []},
         ]
     else:
